@@ -346,7 +346,7 @@ burst_case = st.fixed_dictionaries(
 
 
 def run(ctx):
-    cnt = ctx.each("explore", configs(ctx.tier), check_config, stop_after=4, timeout=1800)
+    cnt = ctx.each("explore", configs(ctx.tier), check_config, stop_after=4, timeout=ctx.scale(300, 1800))
     ctx.exhaustive["explore"] = {"complete": True, "n_configs": cnt, "bound": "every release order of pending awaitables for each (connections, burst size, routing pattern, stalled connection) configuration"}
     inter = [{"conns": c, "n": n, "max_steps": ms} for c, n, ms in (
         (["tcp"], 2, 12), (["tcp"], 3, 11), (["tty"], 2, 12), (["tty"], 3, 10), (["cli"], 3, 11), (["tcp", "tcp"], 2, 9),
@@ -355,6 +355,6 @@ def run(ctx):
     inter += [{"conns": c, "n": 2, "max_steps": 8, "long": "huge"} for c in (["tcp"], ["cli"])]
     if ctx.tier == "thorough":
         inter += [{"conns": c, "n": n, "max_steps": ms, "max_runs": 400000} for c, n, ms in ((["tcp"], 4, 13), (["cli"], 4, 13), (["tty"], 3, 13), (["tcp", "tty"], 2, 11))]
-    cnt2 = ctx.each("interleave", inter, check_interleave, stop_after=3, timeout=3000)
+    cnt2 = ctx.each("interleave", inter, check_interleave, stop_after=3, timeout=ctx.scale(600, 3000))
     ctx.exhaustive["interleave"] = {"complete": True, "n_configs": cnt2, "bound": "every sequence of {route next message, run one loop iteration, complete one pending awaitable} up to max_steps choice points per configuration (then finished deterministically); a configuration whose schedule count exceeds max_runs is marked truncated in coverage.classes"}
     ctx.hyp("bursts", burst_case, check_schedule, ctx.scale(200, 5000))
